@@ -79,11 +79,24 @@ class OpenProxy:
         self._had = "open" in vars(iodata.api)
         self._prev = vars(iodata.api).get("open")
         iodata.api.open = self._open
+        # a tree that opens its output through pathlib instead of the builtin is observed through Path.open
+        import pathlib
+
+        proxy = self
+        self._path_open = pathlib.Path.open
+
+        def path_open(path, mode="r", *args, **kwargs):
+            return proxy._open(path, mode, *args, **kwargs)
+
+        pathlib.Path.open = path_open
         return self
 
     def __exit__(self, *exc):
         import iodata.api
 
+        import pathlib
+
+        pathlib.Path.open = self._path_open
         if self._had:
             iodata.api.open = self._prev
         else:
